@@ -187,7 +187,7 @@ func init() {
 			return 100
 		},
 		RequiredFeatures: func(tier string) []string {
-			return []string{"side-pot", "split-or-multi-winner", "bust", "mid-hand-topup", "departure", "batch-leave", "batch-update", "released-while-hand-runs", "known:dealt-in-leave"}
+			return []string{"side-pot", "split-or-multi-winner", "bust", "mid-hand-topup", "departure", "batch-leave", "batch-update", "released-while-hand-runs", "top-up-overlapping-the-open", "known:dealt-in-leave"}
 		},
 		CaseTimeout: 180e9,
 		Run:         c01Run,
@@ -202,7 +202,7 @@ func c01Run(c *h.Ctx) {
 	}
 	po := PlayOpts{
 		Hands: 6 + c.R.Intn(10),
-		Churn: Churn{BetweenP: 0.6, MidP: 0.12, Rebuy: true, AddOn: true, BuyIn: true, Leave: true, MidTopup: true, MidJoin: true, MidLeaveOther: true, RandomSeat: true, ResumePaused: true, SitOut: true, Batch: true},
+		Churn: Churn{BetweenP: 0.6, MidP: 0.12, Rebuy: true, AddOn: true, BuyIn: true, Leave: true, MidTopup: true, MidJoin: true, MidLeaveOther: true, RandomSeat: true, ResumePaused: true, SitOut: true, Batch: true, OverlapOpen: 0.35},
 	}
 	if c.R.Intn(3) == 0 {
 		po.Gen.ShortStacks = true
